@@ -15,10 +15,18 @@ CONSTANTS NSet,      \* sample sizes
           CSet,      \* indices into ScaleFactors (filtered by the domain InRange)
           Kinds,     \* start kinds: "default", "user"
           Reps,      \* replicates (independent data draws)
-          Dev        \* "none" | "start" | "swap" | "recipinv" | "logasscale"
-VARIABLES pc, fam, ci, n, c, kind, rep, p0, p1, p2, p3
+          Dev,       \* "none" | "start" | "swap" | "recipinv" | "logasscale"
+          SharedKw,  \* TRUE = deviation: the scipy fit keywords live in a class-level dict that
+                     \*        _fit_mle mutates, so a fixed parameter of one instance constrains
+                     \*        every later fit of the family in the process
+          KFixAll    \* TRUE = every choice of the other instance's fixed parameter (model
+                     \*        checking); FALSE = one per case, rotating (case generation)
+VARIABLES pc, fam, ci, n, c, kind, rep, p0, p1, p2, p3,
+          kfix,      \* history: 0 = nothing was fitted before; k = ANOTHER instance of the same
+                     \*          family with parameter k fixed was fitted first (on the same data)
+          leak       \* 0, or the parameter index on which the process-wide state holds a stale constraint
 
-vars == <<pc, fam, ci, n, c, kind, rep, p0, p1, p2, p3>>
+vars == <<pc, fam, ci, n, c, kind, rep, p0, p1, p2, p3, kfix, leak>>
 
 Cls == Classes(fam)[ci]
 Theta == Cls.theta
@@ -45,13 +53,20 @@ Est(start, num, den) ==
                                   IF Roles(fam)[i] = "logscale" THEN (Theta[i] * num) \div den
                                   ELSE Target(num, den)[i]]
 
+(* parameters another instance may have fixed (ScipyGammaFloc: loc is fixed in the case itself) *)
+FixIdx(f) == {i \in 1..Len(Roles(f)) : ~(f = "ScipyGammaFloc" /\ i = 2)}
+FixVal(k) == UserStart(fam, Theta)[k]        \* "a given physical value", not the estimate
+(* what a fit of THIS instance returns given the history *)
+EstH(start, num, den) ==
+    LET e == Est(start, num, den) IN IF leak = 0 THEN e ELSE [e EXCEPT ![leak] = FixVal(leak)]
+
 (* concave surrogate of the log-likelihood with its maximum at the target *)
 RECURSIVE Dist(_, _, _)
 Dist(a, b, i) == IF i > Len(a) THEN 0 ELSE Abs(a[i] - b[i]) + Dist(a, b, i + 1)
 LLm(par, num, den) == 0 - Dist(par, Target(num, den), 1)
 
 Init ==
-    /\ pc = "start"
+    /\ pc = "pre" /\ leak = 0
     /\ fam \in FamSet
     /\ ci \in 1..Len(Classes(fam))
     /\ n \in NSet
@@ -62,26 +77,37 @@ Init ==
        ELSE c = <<1, 1>>
     /\ p0 = IF kind = "default" THEN Defaults(fam) ELSE UserStart(fam, Classes(fam)[ci].theta)
     /\ p1 = <<>> /\ p2 = <<>> /\ p3 = <<>>
+    /\ IF KFixAll THEN kfix \in {0} \cup FixIdx(fam)
+       ELSE LET S == FixIdx(fam)
+                r == (ci + rep + (n \div 100)) % Cardinality(S)
+            IN kfix = CHOOSE k \in S : Cardinality({j \in S : j < k}) = r
+
+(* the history step: another instance of the family, parameter kfix fixed, is fitted first *)
+FitOther ==
+    /\ pc = "pre"
+    /\ leak' = IF kfix # 0 /\ SharedKw THEN kfix ELSE 0
+    /\ pc' = "start"
+    /\ UNCHANGED <<fam, ci, n, c, kind, rep, p0, p1, p2, p3, kfix>>
 
 FitData ==
     /\ pc = "start"
-    /\ p1' = Est(p0, 1, 1)
+    /\ p1' = EstH(p0, 1, 1)
     /\ pc' = "fitted"
-    /\ UNCHANGED <<fam, ci, n, c, kind, rep, p0, p2, p3>>
+    /\ UNCHANGED <<fam, ci, n, c, kind, rep, p0, p2, p3, kfix, leak>>
 
 FitScaled ==
     /\ pc = "fitted"
-    /\ p2' = IF Scalable(fam) THEN Est(Defaults(fam), c[1], c[2]) ELSE p1
+    /\ p2' = IF Scalable(fam) THEN EstH(Defaults(fam), c[1], c[2]) ELSE p1
     /\ pc' = "scaled"
-    /\ UNCHANGED <<fam, ci, n, c, kind, rep, p0, p1, p3>>
+    /\ UNCHANGED <<fam, ci, n, c, kind, rep, p0, p1, p3, kfix, leak>>
 
 ReFit ==
     /\ pc = "scaled"
-    /\ p3' = Est(p1, 1, 1)
+    /\ p3' = EstH(p1, 1, 1)
     /\ pc' = "done"
-    /\ UNCHANGED <<fam, ci, n, c, kind, rep, p0, p1, p2>>
+    /\ UNCHANGED <<fam, ci, n, c, kind, rep, p0, p1, p2, kfix, leak>>
 
-Next == FitData \/ FitScaled \/ ReFit
+Next == FitOther \/ FitData \/ FitScaled \/ ReFit
 Spec == Init /\ [][Next]_vars
 
 Fitted == pc \in {"fitted", "scaled", "done"}
@@ -102,10 +128,17 @@ Admissible ==
 ScaleEquivariant ==
     Scaled /\ Scalable(fam) /\ Identifiable(fam, n) => Equivariant(fam, c[1], c[2], p1, p2)
 
+(* FitDist of instance j does not change the outcome of FitDist of instance i *)
+HistoryIndependent ==
+    /\ Fitted => p1 = Est(p0, 1, 1)
+    /\ Scaled /\ Scalable(fam) => p2 = Est(Defaults(fam), c[1], c[2])
+    /\ pc = "done" => p3 = Est(p1, 1, 1)
+
 (* ---- leg R: the enumerated cases *)
 CaseRec == [fam |-> fam, ci |-> ci, theta |-> Theta, n |-> n, num |-> c[1], den |-> c[2],
             kind |-> kind, rep |-> rep, start |-> p0,
             thetac |-> Target(c[1], c[2]), scale |-> Cls.scale,
-            label |-> Label(fam, Theta, c[1], c[2])]
+            label |-> Label(fam, Theta, c[1], c[2]),
+            kfix |-> kfix, fixval |-> FixVal(kfix)]
 Emit == pc = "done" => PrintT(<<"BEH", ToJson(CaseRec)>>)
 =============================================================================
